@@ -379,6 +379,12 @@ func workerMain(d *Driver, tier string, seed int64, shard, only string) int {
 				continue
 			}
 		}
+		if pf := os.Getenv("VF_PROGRESS"); pf != "" {
+			if fh, err := os.OpenFile(pf, os.O_APPEND|os.O_CREATE|os.O_WRONLY, 0o644); err == nil {
+				fmt.Fprintf(fh, "%s shard %s START %s\n", time.Now().Format("15:04:05"), shard, it.ID)
+				fh.Close()
+			}
+		}
 		res := c.runItem(it)
 		enc.Encode(res)
 		out.Flush()
@@ -497,6 +503,21 @@ func parentMain(d *Driver, tier string, seed int64, nworkers int, only string) i
 				results[i].fatal = err.Error()
 				return
 			}
+			// hard stop: a worker that is still busy well after the overall budget is killed; what it has
+			// reported so far counts, the rest of its share is inconclusive
+			killed := false
+			timer := time.AfterFunc(limit+4*time.Minute, func() {
+				killed = true
+				cmd.Process.Kill()
+			})
+			defer timer.Stop()
+			defer func() {
+				if killed {
+					results[i].err = ""
+					results[i].items = append(results[i].items, &ItemResult{ID: fmt.Sprintf("(worker %d)", i), Obl: 1,
+						Inconcl: []string{"worker stopped by the hard time limit: the remaining items of its share were not explored"}})
+				}
+			}()
 			sc := bufio.NewScanner(op)
 			sc.Buffer(make([]byte, 1<<20), 1<<28)
 			for sc.Scan() {
